@@ -468,7 +468,7 @@ func c12keysProject(t *testing.T, root string, rng *rand.Rand, pi int, line func
 			fmt.Fprintf(&b, "load(%s, v%d=\"v\")\n", lit(ms), i)
 		}
 		for _, n := range own[pkg] {
-			fmt.Fprintf(&b, "@target\ndef %s():\n    pass\n", n)
+			fmt.Fprintf(&b, "@target()\ndef %s():\n    pass\n", n)
 		}
 		var mine []string
 		for _, r := range refs {
